@@ -258,8 +258,10 @@ struct DurationTotal {
 
 impl DurationTotal {
     pub fn new(time_duration: i128, unit_nanoseconds: u64) -> Self {
-        let quotient = time_duration.div_euclid(unit_nanoseconds as i128);
-        let remainder = time_duration.rem_euclid(unit_nanoseconds as i128);
+        // NOTE: truncating division keeps quotient and remainder of the same sign, so
+        // that adding them back together does not cancel for negative durations.
+        let quotient = time_duration / (unit_nanoseconds as i128);
+        let remainder = time_duration % (unit_nanoseconds as i128);
 
         Self {
             quotient,
